@@ -53,6 +53,10 @@ def spec(tier: str, seed: int, which: str = "C18") -> Spec:
         # two detached wrappers around one attached node, then a construction over both wrappers
         for f in range(H.FALSY_FOREST):
             fams.append(Family(f"shared-child-wrappers-K3-forest{f}", H.make_harness(3, which, ["wrap-detached-tuple"], ["wrap-detached-required", "wrap-detached-tuple"], forest=f, last_ops=["wrap-pair", "replace-child", "attach"]), per_path_timeout=3.0, variables="selectors: receiver / argument per step"))
+    if which == "C19":
+        # ... and the same with a DETACHED shared node (a root detached first, then two detached wrappers)
+        for f, recv in (((3, 2),) if tier == "quick" else ((0, 0), (1, 4), (2, 4), (3, 2))):
+            fams.append(Family(f"shared-detached-child-K4-forest{f}", H.make_harness(4, which, ["detach"], ["wrap-detached-required", "wrap-detached-tuple"], forest=f, first_recv=recv, last_ops=["wrap-pair", "attach"]), per_path_timeout=3.0, variables="selectors: receiver / argument per step"))
     # nodes that are falsy in a boolean context: histories of 2 on their own forest
     for op in ("duplicate-detached", "detach", "detach_self", "replace_with-None", "new-leaf-1", "replace-noop") + (("wrap-detached-tuple",) if which == "C19" else ()):
         fams.append(Family(f"falsy-nodes-K2-first-{op}", H.make_harness(2, which, [op], forest=H.FALSY_FOREST), per_path_timeout=3.0, variables=var + "; forest with falsy node classes"))
